@@ -144,14 +144,50 @@ def yield_of(t):
 # ----------------------------------------------------------------------------- system under test
 
 
-def run_pratt(table, toks):
-    """Returns ("ok", tree, consumed_all) or ("exc", description)."""
+def flipped(table):
+    """The same operators with the precedence order reversed and every associativity flipped."""
+    top = 1 + max([v for v in table["pre"].values()] + [v for v in table["post"].values()] + [v[0] for v in table["in"].values()] + [0])
+    return {
+        "pre": {k: top - v for k, v in table["pre"].items()},
+        "post": {k: top - v for k, v in table["post"].items()},
+        "in": {k: [top - v[0], not v[1]] for k, v in table["in"].items()},
+    }
+
+
+def run_pratt(table, toks, base=None):
+    """Returns ("ok", tree, consumed_all) or ("exc", description).
+
+    With `base` (another table) the parser class under test is a subclass of a PrattParser subclass that
+    declares `base` and has already parsed the same stream once: the tables a class declares are what counts,
+    not what a parent class declared or computed earlier (seeded change S67).
+    """
     from pest import Pair, PrattParser, RuleFrame
     from pest.pairs import Stream
 
     pre, post, inf = table["pre"], table["post"], table["in"]
+    Parent = PrattParser
+    if base is not None:
 
-    class P(PrattParser):
+        class B(PrattParser):
+            PREFIX_OPS = dict(base["pre"])
+            POSTFIX_OPS = dict(base["post"])
+            INFIX_OPS = {k: (v[0], bool(v[1])) for k, v in base["in"].items()}
+
+            def parse_primary(self, pair):
+                return ("P", str(pair))
+
+            def parse_prefix(self, op, rhs):
+                return ("PRE", op.name, rhs)
+
+            def parse_postfix(self, lhs, op):
+                return ("POST", lhs, op.name)
+
+            def parse_infix(self, lhs, op, rhs):
+                return ("IN", lhs, op.name, rhs)
+
+        Parent = B
+
+    class P(Parent):
         PREFIX_OPS = dict(pre)
         POSTFIX_OPS = dict(post)
         INFIX_OPS = {k: (v[0], bool(v[1])) for k, v in inf.items()}
@@ -174,6 +210,11 @@ def run_pratt(table, toks):
         start = len(text)
         text += name + " "
         pairs.append((start, start + len(name), "prim" if kind == "p" else name))
+    if base is not None:
+        try:
+            Parent().parse_expr(Stream([Pair(text, s, e, RuleFrame(n, 0)) for s, e, n in pairs]))
+        except Exception:  # noqa: BLE001  (the warm-up run is judged by its own evaluate() call elsewhere)
+            pass
     stream = Stream([Pair(text, s, e, RuleFrame(n, 0)) for s, e, n in pairs])
     try:
         tree = P().parse_expr(stream)
@@ -182,10 +223,10 @@ def run_pratt(table, toks):
     return ("ok", tree, stream.peek() is None)
 
 
-def evaluate(table, toks):
+def evaluate(table, toks, base=None):
     """Violation description or None."""
     toks = [tuple(t) for t in toks]
-    res = run_pratt(table, toks)
+    res = run_pratt(table, toks, base)
     if res[0] == "exc":
         return "parse_expr raised " + res[1]
     _, tree, whole = res
@@ -283,6 +324,12 @@ def run_shard(ctx: Ctx, spec):
             if len(good) != 1:
                 selftest_fail.append((table, toks, len(good)))
         bad = evaluate(table, toks)
+        if not bad:
+            ctx.evals += 1
+            ctx.count("subclass_of_a_used_parser_with_the_flipped_table")
+            bad = evaluate(table, toks, base=flipped(table))
+            if bad:
+                bad = "in a subclass of a used parser class: " + bad
         if bad:
             kind = bad.split(":")[0][:40]
             # bucket by the fixities involved
@@ -326,6 +373,11 @@ def run_shard(ctx: Ctx, spec):
             if nt:
                 ctx.nt_extra += 1
             bad = evaluate(table, toks)
+            if not bad and nt:
+                ctx.evals += 1
+                bad = evaluate(table, toks, base=flipped(table))
+                if bad:
+                    bad = "in a subclass of a used parser class: " + bad
             if bad:
                 kinds = "+".join(sorted({kk for kk, _ in toks if kk != "p"}))
                 ctx.violation(f"exh:{bad.split(':')[0][:40]}|{kinds}", {"table": table, "tokens": [list(x) for x in toks]}, bad)
@@ -334,8 +386,18 @@ def run_shard(ctx: Ctx, spec):
         raise RuntimeError(f"oracle self-test failed (not exactly one valid tree): {selftest_fail[:2]}")
 
 
+def both(table, toks):
+    """Plain run, then the run in a subclass of a used parser class that declared the flipped table."""
+    bad = evaluate(table, toks)
+    if not bad:
+        bad = evaluate(table, toks, base=flipped(table))
+        if bad:
+            bad = "in a subclass of a used parser class: " + bad
+    return bad
+
+
 def replay(case):
-    return evaluate(case["table"], case["tokens"])
+    return both(case["table"], case["tokens"])
 
 
 def shrink(case):
@@ -367,7 +429,7 @@ def shrink(case):
         for i in range(len(toks)):
             for width in (2, 1):
                 cand = toks[:i] + toks[i + width :]
-                if cand and wellformed(cand) and evaluate(table, cand):
+                if cand and wellformed(cand) and both(table, cand):
                     toks = cand
                     changed = True
                     break
@@ -380,4 +442,4 @@ def shrink(case):
         "in": {k: v for k, v in table["in"].items() if k in used} or table["in"],
     }
     out = {"table": table, "tokens": [list(t) for t in toks]}
-    return out if evaluate(table, toks) else case
+    return out if both(table, toks) else case
